@@ -70,6 +70,7 @@ type gen struct {
 	capMay   bool   // inside a construct the formatter drops on purpose: nothing is "must"
 	pendNL   bool   // the next gap must contain a line break
 	mute     int    // > 0: no comments at all (inside a map key holding a struct literal)
+	noStruct int    // > 0: no struct literal (inside a map key that may carry comments)
 	noCmt    bool   // program without comments
 	noMay    bool   // no comments between the tokens of one item (class "may")
 	area     string // grammar area of the gap being emitted (for class "may" comments)
@@ -707,7 +708,7 @@ func (g *gen) dataType(depth int, structOK bool, k gapKind, head cls) {
 	if depth <= 0 && c != 1 && c != 6 {
 		c = 0
 	}
-	if c == 7 && !structOK {
+	if c == 7 && (!structOK || g.noStruct > 0) {
 		c = 0
 	}
 	switch c {
@@ -747,13 +748,17 @@ func (g *gen) dataType(depth int, structOK bool, k gapKind, head cls) {
 		if keyStruct {
 			// domain cut: a map key that may contain a struct literal carries no comments
 			g.mute++
+		} else {
+			g.noStruct++
 		}
 		g.dataType(depth-1, keyStruct, gAny, clsMay)
+		g.tok("]", gAny, clsMay)
 		if keyStruct {
 			g.mute--
+		} else {
+			g.noStruct--
 		}
 		g.capMay = oldCap
-		g.tok("]", gAny, clsMay)
 		g.dataType(depth-1, true, gAny, clsMay)
 	case 5: // pointer: next must be IDENT, '[', interface{} or '*'
 		g.tok("*", k, head)
